@@ -32,6 +32,12 @@ CLAIMED["C14"] = dict(
     note="Shell structure menus are finite (1-3 shells, up to 3 (thorough 5) contractions, up to 3 (4) orbitals); exact reals.",
     ref="4/C14")
 
+CLAIMED["C17"] = dict(
+    text="Symbolic execution of api._select_format_module (and the public load/dump entry points up to the first file access) on ONE symbolic file name of unbounded length (SMT strings f = d ++ b, decided by cvc5/z3 QF_SLIA): for every solver-feasible path the chosen module has a pattern matching the base name and supports the operation, FileFormatError arises only when no module qualifies and before any open(), the bare base name gives the same choice; explicit formats win without looking at the name; unknown/unsupported formats raise before any file access; input-module selection; every declared attribute name of all 25 modules exists on IOData.",
+    note="os.path.basename modelled by its documented contract; fnmatch replaced by a glob->SMT-atom translation validated against fnmatch on concrete names at every run; 'guaranteed' lists are checked by the loading harnesses, 'required' enforcement by C08.",
+    technique="symbolic execution of the real selection code on an SMT string variable; branch feasibility and obligations decided by cvc5 1.0 / z3 (QF_SLIA), counterexample names replayed on the real API",
+    ref="4/C17")
+
 NOT_YET = "check not built yet in this round (planned, see DESIGN.md section 4)"
 NA = {}
 
